@@ -9,7 +9,7 @@ RULE = ("pairs of generated templates A, B (all construct kinds incl. blocks, pa
         "triple-brace, '~' tags, block helpers spelled without a body; nesting ≤ 5; no decorators / inline definitions in A): render(A+'|'+B) must equal "
         "render(A+'|') followed by render('|'+B) without its first '|', and fail iff one of them fails; single constructs "
         "repeated 2..4 times must yield that many copies; a probe helper reading the public RenderContext getters before and "
-        "after a construct must print the same state; 4 renders per case on the real crate, each mirrored by the model; "
+        "after a construct must print the same state; 169 ordered pairs of one-line operands (incl. blocks whose last child is a partial that writes nothing) composed INSIDE THE BODY OF AN INDENTED PARTIAL, where the write flags steer the indentation; 4 renders per case on the real crate, each mirrored by the model; "
         "non-trivial = A renders non-empty output; distinct by (A, B, data)")
 DEFINITE_FLOOR = 0.5
 ASSUMPTIONS = ["a compact comment whose text begins with '--' after optional whitespace ({{! --x}}) is excluded from the random stream (known finding F20) and runs as a listed witness",
@@ -95,6 +95,23 @@ def generate(rng: Rng, n, tier="quick"):
             c = {"kind": "session", "regs": [{"escape": "none"}], "ops": ops + [rend("layAB"), rend("layA"), rend("layB")], "id": "C08-d%03d" % k}
             out.append((c, {"mode": "pair", "A": A}))
             k += 1
+    # … and pairs composed INSIDE THE BODY OF AN INDENTED PARTIAL (an indentation string is active: the write flags that decide
+    # where it is put are part of the state a finished construct must leave alone); operands write no line break
+    regs2 = [("nothing", ""), ("emptyif", "{{#if f}}x{{/if}}"), ("slot", "<{{> @partial-block}}>"), ("one", "1")]
+    ind_ops = ["x", "{{v}}", "{{#if t}}x{{> nothing}}{{/if}}", "{{#if t}}x{{#> nothing}}{{/nothing}}{{/if}}", "{{#> slot}}s{{> nothing}}{{/slot}}",
+               "{{#each ys}}y{{> emptyif}}{{/each}}", "{{> nothing}}", "{{#if t}}{{> nothing}}z{{/if}}", "{{#with o}}w{{> nothing}}{{/with}}",
+               "{{#if t}}x{{> one}}{{> nothing}}{{/if}}", "{{#unless f}}u{{#if f}}n{{/if}}{{/unless}}", "{{> one}}", "{{#if t}}{{/if}}"]
+    dd2 = {"v": "V", "t": True, "f": False, "ys": [1, 2], "o": {"v": "inner"}}
+    for A in ind_ops:
+        for B in ind_ops:
+            ops = [{"op": "reg_string", "reg": 0, "name": nm, "src": sr} for nm, sr in regs2]
+            ops += [{"op": "reg_string", "reg": 0, "name": "ab", "src": A + "|" + B}, {"op": "reg_string", "reg": 0, "name": "a_", "src": A + "|"},
+                    {"op": "reg_string", "reg": 0, "name": "_b", "src": "|" + B}]
+            rend = lambda nm: {"op": "render", "reg": 0, "api": "render_template", "src": "  {{> %s}}\nE" % nm, "data": enc(dd2)}
+            top = {"op": "render", "reg": 0, "api": "render", "name": "ab", "data": enc(dd2)}
+            c = {"kind": "session", "regs": [{"escape": "none"}], "ops": ops + [top, rend("ab"), rend("a_"), rend("_b")], "id": "C08-i%03d" % k}
+            out.append((c, {"mode": "pairind", "A": A}))
+            k += 1
     # listed witness of F20: a compact comment whose text begins with `--` opens a block comment when a later `--}}` exists
     A = "x{{! ---}}y"
     c = {"kind": "session", "regs": [{"escape": "none"}], "ops": [
@@ -125,6 +142,24 @@ def oracle(case, meta, impl):
         if ab.get("r") == "ok":
             return ["one operand fails alone but the combination renders"]
         return []
+    if mode == "pairind":
+        ab, a, b = rs[-3], rs[-2], rs[-1]
+        if a.get("r") != "ok" or b.get("r") != "ok":
+            return None
+        if not (a["out"].endswith("|E") and b["out"].startswith("  |")):
+            return None
+        exp = a["out"][:-1] + b["out"][3:]
+        if ab.get("r") != "ok":
+            return ["A and B render alone (inside an indented partial) but A|B fails: %s" % ab.get("reason")]
+        v = [] if ab["out"] == exp else ["inside an indented partial render(A|B) = %r but render(A|) ++ render(|B) = %r" % (ab["out"], exp)]
+        # the separator is itself a sibling of A: also compare with the same line rendered where no indentation is active –
+        # one line of output is that line behind the indentation, once
+        top = rs[-4]
+        if top.get("r") == "ok" and "\n" not in top["out"]:
+            exp2 = ("  " + top["out"] if top["out"] else "  ") + "E"
+            if ab["out"] != exp2 and top["out"]:
+                v.append("inside an indented partial the line A|B renders %r, at top level %r" % (ab["out"], top["out"]))
+        return v
     if mode.startswith("repeat"):
         k = int(mode[6:])
         many, one = rs[-2], rs[-1]
